@@ -1,6 +1,18 @@
 """C14: distance matrices and length-threshold clusters are exact."""
 from lib import *
 
+TINY = [Fraction(1, 2**27), Fraction(1, 2**30), Fraction(1, 2**40), Fraction(3, 2**35)]
+
+def tinyfy(rng, t, p=0.3):
+    """replace some of the present branch lengths by tiny dyadic ones (exact in binary64: the model's rationals still agree exactly)"""
+    import copy as _c
+    t = _c.deepcopy(t)
+    for x in preorder(t):
+        for e, _ch in kids(x):
+            if e["len"] is not None and rng.random() < p:
+                e["len"] = rng.choice(TINY)
+    return t
+
 PROP = "C14"
 LEVEL = "proof"
 RULE = ("60% of the cases use the tree before the call (ReinitIndexes and/or a first ToDistanceMatrix, then 1..3 public edits that "
@@ -16,8 +28,8 @@ RULE = ("60% of the cases use the tree before the call (ReinitIndexes and/or a f
 TRUSTED = ["tree built through NewNode/NewEdge + verif hooks (exact neighbour order)",
            "float64 cells are transmitted as exact rationals (big.Rat.SetFloat64)"]
 ASSUMPTIONS = ["tip names are distinct (sort.Slice on equal names is not modelled; TipBag refuses equal names)",
-               "generated lengths and supports are dyadic (k/64), so float64 sums are exact and equal the model's rationals; "
-               "the division of the average is compared within 1e-9"]
+               "generated lengths and supports are dyadic (k/64, and tiny ones: 2^-27, 2^-30, 2^-40, 3*2^-35), so float64 sums are exact and "
+               "equal the model's rationals; only the division of the average is compared with a tolerance (relative 2^-50)"]
 LEVEL_TEXT = ("theorems in coq/Properties/C14.v about Model/Matrix.v (cells = path sums, symmetric, zero diagonal, name order, "
               "average = mean; cut = partition of the tips into the pieces left by the branches not shorter than the threshold); "
               "correspondence by exact equality of names, cells and bags; the run-time oracle for the cut is the independent "
@@ -36,6 +48,10 @@ def degree_one_root(g, rng, t):
     return {"name": rng.choice(["", "r"]), "coms": [], "slots": [(e, sub)]}
 
 def rand_tree(g, rng, tier, lo=2, prefix="t", ntips=None):
+    t = rand_tree0(g, rng, tier, lo, prefix, ntips)
+    return tinyfy(rng, t) if rng.random() < 0.3 else t
+
+def rand_tree0(g, rng, tier, lo=2, prefix="t", ntips=None):
     hi = 14 if tier != "thorough" else 40
     return g.tree(ntips=ntips, lo=lo, hi=hi, maxdeg=5, prefix=prefix,
                   lenmode=rng.choice(["all", "all", "mixed", "mixed", "none"]),
@@ -89,6 +105,10 @@ def gen(rng, tier):
             ths.append(max(ls))
             ths.append(max(ls) + Fraction(1, 64))
         ths.append(g.dyadic(256, 64))
+        tiny = [x for x in ls if x in TINY]
+        if tiny:
+            x = rng.choice(tiny)
+            ths += [x, x + Fraction(1, 2**45), x - Fraction(1, 2**45)]
         if rng.random() < 0.2:
             ths.append(Fraction(-1, 2))
         seen = set()
